@@ -16,5 +16,6 @@ INVARIANT ValidatedIsOne
 INVARIANT IterEqBatch
 INVARIANT LookaheadOK
 INVARIANT HintsHonoured
+INVARIANT StreamRewriteOK
 CONSTANT Bug_ThresholdInclusive <- TrueValue
 CHECK_DEADLOCK FALSE
